@@ -383,6 +383,42 @@ def check_dotted_imports(repo, res, rule):
            'through the name a')
 
 
+def check_from_import_precedence(repo, res, rule):
+    """`from pkg import name`: Python takes the attribute `name` of the package when the package has one (what its __init__ binds,
+    e.g. `from .name import name`), and imports the submodule pkg.name only otherwise.  supp's own ImportedName.resolve is
+    interpreted on a project stub that knows both the package (with or without the attribute) and the submodule."""
+    m = get_model(repo)
+
+    def scenario():
+        got = {}
+        for bound in (True, False):
+            builtins = Obj(m.cls('BaseScope'), {'names': {}}, 'builtins')
+            top = m.scope('SourceScope', builtins)
+            top.attrs['source'] = Obj(m.cls('Source'), {'filename': '/p/main.py'}, 'source')
+            name = m.new('ImportedName', 'config', (1, 0), (1, 16), 'pkg', 'config')
+            name.attrs['scope'] = top
+            inst = Obj(m.cls('Object'), {}, 'what pkg/__init__.py binds as config')
+            sub = Obj(m.cls('SourceModule'), {'_attrs': {}}, 'submodule pkg.config')
+            pkg = Obj(m.cls('SourceModule'), {'_attrs': ({'config': inst} if bound else {})}, 'package pkg')
+
+            def get_nmodule(it, a, k, _sub=sub, _pkg=pkg):
+                if a[0] == 'pkg.config':
+                    return _sub
+                if a[0] == 'pkg':
+                    return _pkg
+                raise InterpRaise('ImportError', str(a[0]))
+            project = Obj(m.cls('Project'), {'get_nmodule': Native('get_nmodule', get_nmodule)}, 'project')
+            ctx = Obj(m.cls('EvalCtx'), {'project': project}, 'ctx')
+            r = m.it.call(m.it.getattr(name, 'resolve'), [ctx], {})
+            got[bound] = (r, inst if bound else sub)
+        ok = all(r is want for r, want in got.values())
+        return ok, '`from pkg import config` with a submodule pkg/config.py: when pkg/__init__.py binds config itself the name resolves to %s ' \
+            '(Python: the attribute of the package), when it does not to %s (Python: the submodule)' % (got[True][0], got[False][0])
+    _guard(scenario, res, rule, 'from-import takes the attribute of the package before the submodule', NAME,
+           '`from pkg import name` is getattr(pkg, name) first; the submodule pkg.name is imported only when the package has no such '
+           'attribute')
+
+
 def check_module_level_globals(repo, res, rule):
     """A name bound only under a `global` declaration inside a function is a module-level name: reads at module level (in the
     first region and in regions that follow it) and in other functions see it; a module-level binding of its own shadows it."""
@@ -1096,7 +1132,7 @@ def lookup_reach_records(repo):
     a flag), one name is bound at the end of every block, and at the start of every block (and after the construct) supp's own
     names_at/lookup is interpreted on a fresh graph.  What the lookup answers is compared with what the region graph says under the
     resolution semantics the templates assume (sa/templates.py): a binding is visible iff its region is the reader's or an ancestor,
-    certain iff it is on every route.  Loop constructs are left to the loop model (loop_order_records).
+    certain iff it is on every route.  Loop constructs are included (back edges are built with supp's own Flow.loop).
     -> (records, n_queries)"""
     from . import rules_e1 as R
     from . import pyref
@@ -1125,8 +1161,6 @@ def lookup_reach_records(repo):
                     continue
                 blocks, _preds = ref
                 for sp in R.structural_paths(s):
-                    if any(r['loops'] for r in sp.regions.values()):
-                        continue            # loop_order_records
                     if any(r['scope'] != 'CURSCOPE' for tok, r in sp.regions.items() if r['hint'] != 'top' or r['parents']):
                         continue            # regions of a nested scope: the scope chain is decided by the C05 scenarios
                     t = Template(s.root, sp)
@@ -1160,7 +1194,13 @@ def lookup_reach_records(repo):
                         flows = {tok: m.flow(tok, fs) for tok in toks}
                         fs.attrs['flow'] = flows['CUR']
                         for tok in toks:
-                            flows[tok].attrs['parents'] = [flows[p] for p in t.parents.get(tok, []) if p != tok]
+                            info = sp.regions.get(tok) or {}
+                            loops = {t.canon(lp) for lp in info.get('loops', [])}
+                            flows[tok].attrs['parents'] = [flows[p] for p in t.parents.get(tok, []) if p != tok and p not in loops]
+                        for tok in toks:
+                            # back edges through supp's own Flow.loop (a LoopFlow object per edge)
+                            for lp in (sp.regions.get(tok) or {}).get('loops', []):
+                                m.it.call(m.it.getattr(flows[tok], 'loop'), [flows[t.canon(lp)]], {})
                         defaults = {tok: dict(flows[tok].attrs) for tok in toks}
                         # the state the extractor wrote on a region; a region an expression child "leaves" is the region it was
                         # visited in (an expression creates none), so what was written there was written on that region
